@@ -292,10 +292,15 @@ theorem parseKp_ok_iff (env : Env) (ev : KpEvent) :
         · intro h; rw [h.2.2.1] at h3; cases h3
       · rw [if_neg h3]
         have h3' : hasBase64Encoding ev.tags = true := by simpa using h3
-        cases hc : ev.content with
-        | notBase64 => simp
-        | badMls => simp
+        have hexact : Generated.kpDeserializeExact = true := by decide
+        have hkc : kpContent ev.content = .ok ↔ ev.content = .ok := by
+          cases ev.content <;> simp [kpContent, hexact]
+        cases hc : kpContent ev.content with
+        | notBase64 => simp [← hkc, hc]
+        | badMls => simp [← hkc, hc]
+        | trailing => simp [← hkc, hc]
         | ok =>
+          have hc' : ev.content = .ok := hkc.mp hc
           simp only
           by_cases h4 : ev.credIdentity.length ≠ 32
           · rw [if_pos h4]; constructor
@@ -314,7 +319,7 @@ theorem parseKp_ok_iff (env : Env) (ev : KpEvent) :
               | some b =>
                 simp only
                 by_cases h7 : b = ev.kpRef
-                · rw [if_pos h7]; simp [h1', h2', h3', h5', h7]; rw [← h5']; exact h4'
+                · rw [if_pos h7]; simp [h1', h2', h3', h5', h7, hc']; rw [← h5']; exact h4'
                 · rw [if_neg h7]; constructor
                   · intro h; cases h
                   · intro h; have := h.2.2.2.2.2.2; simp at this; exact absurd this h7
